@@ -42,7 +42,9 @@ def tool_cases(draw, name, tier):
     case = draw(base_case(name, max_len=3 if tier == "quick" else 5, max_src=3))
     if name != "iter_sentinel":
         for s in case["srcs"]:
-            s["fl"] = draw(st.sampled_from(["agen", "aclass", "aplain", "aclass", "aclass_noclose", "agenlike"]))
+            s["fl"] = draw(st.sampled_from(["agen", "aclass", "aplain", "aclass", "aclass_noclose", "agenlike", "aproxy",
+                                             "areiter"]))
+            s["eqsrc"] = draw(st.integers(0, 2)) == 0
             s["susp"] = draw(st.integers(1, 2))
             s["cret"] = draw(st.sampled_from([None, None, True]))
     else:
